@@ -61,6 +61,17 @@ pub fn cases(tier: Tier) -> Vec<BigCase> {
             v.push(BigCase { name: format!("last_chunk_offset=2^32{:+}:{}", d, k.name()), origin: 0, movie_ts: 1000, tracks: vec![(k, 1000)], samples: s, heavy: true });
         }
     }
+    // more than 4 GiB of equal-sized samples inside ONE chunk (durations far below the timescale): offsets inside the
+    // chunk pass 2^32 while the chunk offset itself stays small
+    {
+        let mut s = vec![];
+        for _ in 0..70 {
+            s.push((1u32, MIB64, 1u32, 0i32, true));
+        }
+        s.push((1, MIB64, 1000, 0, true));
+        // (all samples of one size: the table stays in its constant-size form)
+        v.push(BigCase { name: "one_chunk_of_4.4GiB_equal_samples:avc".into(), origin: 0, movie_ts: 1000, tracks: vec![(Kind::Avc, 1000)], samples: s, heavy: true });
+    }
     // two tracks, only the second one crosses
     {
         let mut s = vec![(1u32, 3u64, 1000u32, 0i32, true)];
@@ -121,7 +132,7 @@ pub fn cases(tier: Tier) -> Vec<BigCase> {
     // durations whose conversion into the movie timescale lands just above 2^k for k other than 32 (31, 33, 40, 44, 48,
     // 52..54, 60, 62, 63) with timescale pairs whose ratio is far from 1 or whose product with the media duration leaves
     // 64 bits: integer-exact conversion, no refusal as long as the result fits in 64 bits, header durations and accessors
-    for (mts, tts) in [(4294967291u32, 1u32), (4294967291, 1000), (4294967291, 90000), (1_000_000_000, 1_000_000_000), (u32::MAX, u32::MAX), (90000, 1000)] {
+    for (mts, tts) in [(4294967291u32, 1u32), (4294967291, 1000), (4294967291, 90000), (1_000_000_000, 1_000_000_000), (u32::MAX, u32::MAX), (90000, 1000), (1_000_000_000, 4_000_000_000), (3_500_000_000, 3_000_000_000), (u32::MAX - 1, u32::MAX), (u32::MAX, 1 << 31), (3, 4_000_000_007)] {
         for k in [31u32, 33, 40, 44, 48, 52, 53, 54, 60, 62, 63] {
             let target = (1u128 << k) + 12345; // movie ticks
             let media = target * tts as u128 / mts as u128 + 1;
